@@ -1146,9 +1146,9 @@ class Summariser:
             fi = M.functions[name]
             if name[:1].isupper():
                 return ("ctor", name, args, kws)
-            if any(self.is_stream(a) for a in args) or any(self.is_stream(v) for _, v in kws):
-                # a package-level helper that is handed a stream (a new sibling of stream_read / stream_write): looked into, so that what it
-                # does with the stream is seen at the call site; helpers with several exits stay opaque calls
+            if any(self.is_stream(a) or self.is_ctx(a) for a in args) or any(self.is_stream(v) or self.is_ctx(v) for _, v in kws):
+                # a package-level helper that is handed a stream or a context (a new sibling of stream_read / stream_write, a scope factory):
+                # looked into, so that what it does with them is seen at the call site; helpers with several exits stay opaque calls
                 r = self.inline(fi, args, kws, node, st)
                 if r is not None:
                     return r
